@@ -6,7 +6,7 @@ from exprgen import Gen, sql, col, num, strlit
 PIPE = os.path.join(vlib.VERIF, "spec", "pipe")
 ASSUME = ["single producer; synchronous sink (asynchronous sinks are explicitly unordered)", "the result channel is drained continuously and at most 40 rows are outstanding (capacity 100)",
           "WHERE predicates are drawn from the envelope in which the engine follows SQL semantics (C06 decides expressions; deviations are pinned there)",
-          "default overflow strategy with a 1000-row input buffer: no input row is dropped at these volumes"]
+          "default overflow strategy with a 1000-row input buffer, or the expand strategy with a ceiling above the row count: no input row is dropped at these volumes"]
 
 
 def select_items(rng, g):
@@ -78,6 +78,11 @@ def run(tier):
     # ordering: rows handed in without waiting; sink and channel must see the results in emission order
     for i in range(60 if quick else 600):
         scen.append(mk(rng, g, i % 5 == 0, [None, "flat"][i % 2], rng.choice([20, 40]), "emit", True))
+    # the same with a tiny input buffer that has to be expanded while the (slowed) processor lags behind: still each row once, in order
+    for i in range(30 if quick else 300):
+        sc = mk(rng, g, False, None, rng.choice([30, 40]), "emit", True)
+        sc["perf"] = {"strategy": "expand", "data": rng.choice([2, 4, 8]), "max": 400, "mininc": rng.choice([2, 4]), "growth": rng.choice([1.5, 2.0]), "slowsink": rng.choice([100, 300])}
+        scen.append(sc)
     seqfam.run_scenarios(res, scen, "TraceDirect", tag="direct")
     seqfam.run_pinned(res, "TraceDirect")
     res.cov["exhaustive"] = False
